@@ -6,8 +6,10 @@ every run and emitted as lean/DuneVerif/Gen/C14.lean:
   layout_right.hh  the same two functions
   extents.hh       extents::product()               loop bounds, product step
   layout_stride.hh mapping::size(extents,strides)   rank-0 value, empty value, initial value, loop bounds, step
+                   mapping::operator()(Indices...)  summand and initial value of the fold expression
   mdspan.hh        mdspan::size()                   loop bounds, product step
   mdarray.hh       mdarray::size()                  loop bounds, product step
+  mdarray.hh       mdarray(const mapping_type&[, value][, alloc])   the number of elements the container is created with
   mdarray.hh       mdarray(const mdspan&[, const Alloc&])   the number of elements the container is created with
                    (member initialiser of container_: which of `mapping_type(other.mapping()).required_span_size()`,
                    `other.mapping().required_span_size()`, `other.size()` it is) and that mapping_ adopts other.mapping()
@@ -437,6 +439,79 @@ def tr_from_mdspan(src, name, doc):
     return found, {}, "\n".join(txt)
 
 
+def tr_from_mapping(src, name, doc):
+    """the four constructors from a mapping: (m) (m, v) (m, a) (m, v, a)"""
+    head = re.compile(r"constexpr\s+mdarray\s*\(\s*const\s+mapping_type\s*&\s*(\w+)\s*"
+                      r"(?:,\s*const\s+value_type\s*&\s*(\w+)\s*)?(?:,\s*const\s+Alloc\s*&\s*(\w+)\s*)?\)\s*(?:noexcept)?\s*:")
+    found = {}
+    for m in head.finditer(src):
+        mp, val, alloc = m.group(1), m.group(2), m.group(3)
+        inits, b = member_inits(src, m.end())
+        d = dict(inits)
+        if [n for n, _ in inits] != ["container_", "mapping_"]:
+            raise TranslateError("%s: member initialisers %s" % (doc, [n for n, _ in inits]))
+        if d["mapping_"] != mp:
+            raise TranslateError("%s: mapping_ is initialised with %r" % (doc, d["mapping_"]))
+        if re.sub(r"\s+", "", src[b:balanced(src, b)]) != "{}":
+            raise TranslateError("%s: constructor body is not empty" % doc)
+        c = d["container_"]
+        tail = "".join("," + x for x in (val, alloc) if x)
+        if alloc is None:
+            mm = re.fullmatch(r"construct_container<\w+>\((.*)\)", c)
+            if not mm:
+                raise TranslateError("%s: container_ is initialised with %r" % (doc, c))
+            c = mm.group(1)
+        if tail and not c.endswith(tail):
+            raise TranslateError("%s: container_ is initialised with %r" % (doc, c))
+        e = unwrap(c[:len(c) - len(tail)] if tail else c)
+        key = ("val" if val else "") + ("alloc" if alloc else "") or "plain"
+        if e == mp + ".required_span_size()":
+            found[key] = "span"
+        elif e in (mp + ".extents().product()", "construct_size(%s)" % mp):
+            found[key] = "size"
+        else:
+            raise TranslateError("%s: element count %r of the container is not one of the known forms" % (doc, e))
+    if sorted(found) != ["alloc", "plain", "val", "valalloc"]:
+        raise TranslateError("%s: expected four constructors from a mapping, found %s" % (doc, sorted(found)))
+    worst = "size" if "size" in found.values() else "span"
+    txt = ["/-- %s: the number of elements `container_` is created with, as a function of" % doc,
+           "    `span = m.required_span_size()` and `size = m.extents().product()`; `mapping_(m)`, empty body",
+           "    (%s) -/" % ", ".join("%s: %s" % (k, found[k]) for k in sorted(found)),
+           "def %s_csize (span size : Nat) : Nat := %s" % (name, worst)]
+    return found, {}, "\n".join(txt)
+
+
+def tr_stride_fold(src, name, doc):
+    """layout_stride::mapping::operator()(Indices... ii): the fold expression `((T(ii) * strides_[r]) + ... + INIT)`"""
+    m, body = body_after(src, r"operator\s*\(\)\s*\(\s*Indices\s*\.\.\.\s*(\w+)\s*\)\s*const\s*(?:noexcept)?\s*\{")
+    pack = m.group(1)
+    flat = re.sub(r"\s+", "", body)
+    mm = re.fullmatch(r"returnunpackIntegerSequence\(\[&\]\(auto\.\.\.(\w+)\)\{return(.*);\},"
+                      r"std::make_index_sequence<(?:rank_|extents_type::rank\(\)|rank\(\))>\{\}\);", flat)
+    if not mm:
+        raise TranslateError("%s: not a fold expression inside unpackIntegerSequence over make_index_sequence<rank_>" % doc)
+    rv, fold = mm.group(1), unwrap(mm.group(2))
+    if fold.count("+...+") != 1:
+        raise TranslateError("%s: not a binary fold over +: %r" % (doc, fold))
+    a, b = fold.split("+...+")
+    term, init = (a, b) if pack in re.findall(r"\w+", a) else (b, a)   # right or left fold: + is associative and commutative
+    if pack in re.findall(r"\w+", init) or pack not in re.findall(r"\w+", term):
+        raise TranslateError("%s: fold %r" % (doc, fold))
+    term = re.sub(r"(?:static_cast<index_type>|index_type)\(%s\)" % re.escape(pack), "i", term)
+    term = re.sub(r"\b%s\b" % re.escape(pack), "i", term)
+    term, n = re.subn(r"\bstrides_\[%s\]" % re.escape(rv), "s", term)
+    if n == 0 or re.search(r"\b%s\b" % re.escape(rv), term):
+        raise TranslateError("%s: term %r" % (doc, term))
+    init = re.sub(r"(?:static_cast<index_type>|index_type)\((\d+)\)", r"\1", init)
+    env = {"i": "i", "s": "s"}
+    parts = dict(term=Expr(term, env).parse(), init=Expr(init, {}).parse())
+    txt = ["/-- %s: one summand of the fold expression, as a function of the index `i` and `strides_[r]` = `s` -/" % doc,
+           "def %s_term (i s : Nat) : Nat := %s" % (name, lean(parts["term"])),
+           "/-- the initial value of the fold -/",
+           "def %s_init : Nat := %s" % (name, lean(parts["init"]))]
+    return parts, {}, "\n".join(txt)
+
+
 FUNCS = [
     ("left", "dune/common/std/layout_left.hh", tr_offset, "layout_left::mapping::operator()(Indices...)"),
     ("left_stride", "dune/common/std/layout_left.hh", tr_stride, "layout_left::mapping::stride(i)"),
@@ -444,8 +519,10 @@ FUNCS = [
     ("right_stride", "dune/common/std/layout_right.hh", tr_stride, "layout_right::mapping::stride(i)"),
     ("product", "dune/common/std/extents.hh", tr_product, "extents::product()"),
     ("stride_size", "dune/common/std/layout_stride.hh", tr_size, "layout_stride::mapping::size(extents,strides)"),
+    ("stride_fold", "dune/common/std/layout_stride.hh", tr_stride_fold, "layout_stride::mapping::operator()(Indices...)"),
     ("mdspan_size", "dune/common/std/mdspan.hh", tr_mdsize, "mdspan::size()"),
     ("mdarray_size", "dune/common/std/mdarray.hh", tr_mdsize, "mdarray::size()"),
+    ("mdarray_from_mapping", "dune/common/std/mdarray.hh", tr_from_mapping, "mdarray(const mapping_type& m[, const value_type& v][, const Alloc& a])"),
     ("mdarray_from_mdspan", "dune/common/std/mdarray.hh", tr_from_mdspan, "mdarray(const mdspan& other[, const Alloc& a])"),
 ]
 
@@ -546,6 +623,32 @@ REFERENCE["mdarray_from_mdspan"] = """
     init_from_mdspan(other);
   }"""
 
+REFERENCE["stride_fold"] = """
+  constexpr index_type operator() (Indices... ii) const noexcept
+  {
+    return unpackIntegerSequence([&](auto... r) {
+      return ((static_cast<index_type>(ii)*strides_[r]) + ... + 0); },
+      std::make_index_sequence<rank_>{});
+  }"""
+
+REFERENCE["mdarray_from_mapping"] = """
+  explicit constexpr mdarray (const mapping_type& m)
+    : container_(construct_container<C>(m.required_span_size()))
+    , mapping_(m)
+  {}
+  constexpr mdarray (const mapping_type& m, const value_type& v)
+    : container_(construct_container<C>(m.required_span_size(), v))
+    , mapping_(m)
+  {}
+  constexpr mdarray (const mapping_type& m, const Alloc& a)
+    : container_(m.required_span_size(), a)
+    , mapping_(m)
+  {}
+  constexpr mdarray (const mapping_type& m, const value_type& v, const Alloc& a)
+    : container_(m.required_span_size(), v, a)
+    , mapping_(m)
+  {}"""
+
 GEN = "DuneVerif/Gen/C14.lean"
 HEADER = ("-- GENERATED by tools/translators/tr_c14.py from dune/common/std/{layout_left,layout_right,layout_stride,extents,mdspan,mdarray}.hh"
           " -- do not edit\n")
@@ -558,7 +661,14 @@ def same_function(name, new, ref, samples=3000):
     pr, cr, _ = ref
     if cn != cr:
         return False
-    if name == "mdarray_from_mdspan":  # data, not a loop: equal iff the same classification
+    if name == "stride_fold":
+        for i in range(12):
+            for st in range(12):
+                e = {"i": i, "s": st}
+                if ev(pn["term"], e) != ev(pr["term"], e) or ev(pn["init"], e) != ev(pr["init"], e):
+                    return False
+        return True
+    if name in ("mdarray_from_mdspan", "mdarray_from_mapping"):  # data, not a loop: equal iff the same classification
         return pn == pr
     rng = random.Random(14)
     for _ in range(samples):
